@@ -10,6 +10,7 @@
    [chunks] is an arbitrary list of read sizes; [term] what ends the stream (EOF / reset / read
    timeout); [fault] = connection cut (reset or EOF) after k delivered bytes. *)
 From Slsk Require Import Base.Tac.
+From SlskGen Require Import C04Gen.
 From Slsk Require Import C04.Model C04.Proofs.
 Open Scope Z_scope.
 
@@ -212,6 +213,17 @@ Proof. exact no_second_negotiation. Qed.
 Theorem C04_two_writers_corrupt : forall src local k,
   prefix local src -> len local < len src -> ~ prefix (two_writers src local k) src.
 Proof. exact two_writers_corrupt. Qed.
+
+(* Helper modules (regenerated constants): what the downloader writes as offset is as wide as what the
+   uploader reads, both are the little-endian uint64 of protocol/primitives.py; the same for the ticket
+   (uint32); the limiter grants are the sizes the segmentation model uses; the transfer read timeout
+   lies in the window the harness' schedules assume; network errors are not OS errors (handler tables). *)
+Theorem C04_helper_constants :
+  offset_width = offset_read_width /\ offset_width = uint64_little_endian_width /\
+  ticket_send_width = ticket_width /\ ticket_width = uint32_little_endian_width /\
+  grant_unlimited = 8192 /\ grant_limited = 128 /\ 60 < transfer_read_timeout_s <= 400 /\
+  direction_download = 1 /\ network_errors_are_not_os_errors = true.
+Proof. repeat split; try reflexivity; unfold transfer_read_timeout_s; lia. Qed.
 
 (* non-vacuity: concrete attempts meeting the hypotheses, with non-trivial outcomes *)
 Example C04_prefix_inv_nonvacuous :
